@@ -284,7 +284,15 @@ class MinMaxAggregator:
         )
 
         body = []
-        var_x = Variable(LOC, "X")
+        # the extreme element of the domain needs a variable that the group / body variables do not use
+        used_names = {var.name for var in rest_vars}
+        for lit in lits_with_vars:
+            used_names.update(var.name for var in collect_ast(lit, "Variable"))
+        x_name, counter = "X", 0
+        while x_name in used_names:
+            x_name = f"X{counter}"
+            counter += 1
+        var_x = Variable(LOC, x_name)
 
         body.append(
             Literal(
